@@ -20,6 +20,7 @@ func init() {
 		Assumptions: []string{"generated getters GetX() return field X"},
 		Run:         runC14,
 		Controls: []Control{
+			{Name: "aggregate-pull-forwards-updates-only", File: "pkg/trait/openclosepb/model.go", Old: "\t\tfor change := range m.positions.Pull(ctx) {", New: "\t\tfor change := range m.positions.Pull(ctx, resource.WithUpdatesOnly(readRequest.UpdatesOnly)) {", Expect: "R14.12"},
 			{Name: "revert-F37-mask-on-items", File: "pkg/trait/openclosepb/model.go", Old: "\tallPositions := m.positions.List() // already sorted by ID aka Direction ordinal", New: "\tallPositions := m.positions.List(opts...) // already sorted by ID aka Direction ordinal", Expect: "R14.11"},
 			{Name: "revert-F38-gate-waits-for-seed", File: "pkg/trait/openclosepb/model.go", Old: "\t\t\tif !change.SeedValue {\n\t\t\t\t// updates only follow a complete seed: an empty collection has no seed events at all\n\t\t\t\tseenAll = true\n\t\t\t}\n", New: "", Expect: "R14.12"},
 			{Name: "drop-read-mask", File: "pkg/trait/onoffpb/model_server.go", Old: "return s.model.GetOnOff(resource.WithReadMask(req.ReadMask))", New: "return s.model.GetOnOff()", Expect: "R14.1"},
@@ -239,9 +240,13 @@ func runC14(c *an.Ctx) {
 	r1411(c)
 	r1412(c)
 	c.Min("R14.11", 1)
-	c.Min("R14.12", 1)
+	c.Min("R14.12", 2)
 	registryRebuild(c, "R14.9")
 	r041as(c, "R14.10")
+	// ... and from the router: every request for a name reaches ONE client (the loser of a concurrent first Get adopts
+	// the client that was committed), or an Update and a Pull for the same name talk to different devices
+	r124as(c, "R14.13")
+	c.Min("R14.13", 10)
 	c.Min("R14.9", 1)
 	c.Min("R14.10", 6)
 	c.Min("R14.1", 30)
@@ -647,8 +652,9 @@ func isResourceWrite(call ssa.CallInstruction) bool {
 	return false
 }
 
-func r148(c *an.Ctx) {
-	const rule = "R14.8"
+func r148(c *an.Ctx) { r148as(c, "R14.8", nil) }
+
+func r148as(c *an.Ctx, rule string, keep func(*ssa.Function) bool) {
 	// functions that (transitively, within pkg/trait) perform a resource write in their own body
 	memo := map[*ssa.Function]int{}
 	var writes func(fn *ssa.Function, depth int) bool
@@ -737,7 +743,7 @@ func r148(c *an.Ctx) {
 		return false
 	}
 	for _, fn := range c.Prog.FuncsIn("pkg/trait") {
-		if c.Prog.IsGenerated(fn.Pos()) || fn.Parent() != nil {
+		if c.Prog.IsGenerated(fn.Pos()) || fn.Parent() != nil || (keep != nil && !keep(fn)) {
 			continue
 		}
 		res := fn.Signature.Results()
@@ -1038,6 +1044,66 @@ func r1412(c *an.Ctx) {
 		}
 	}
 	c.Count("seed_gates", n)
+	// ... and it needs the seed: a function that rebuilds one message from a map of the collection's items (keyed by the
+	// change's id) must subscribe WITH the current items whatever the caller asked for - updates_only is honoured when
+	// deciding what to send, not by starving the map
+	for _, fn := range c.Prog.FuncsIn("pkg/trait") {
+		if c.Prog.IsGenerated(fn.Pos()) || fn.Parent() == nil {
+			continue
+		}
+		keyed := false
+		an.Instrs(fn, func(in ssa.Instruction) {
+			if mu, ok := in.(*ssa.MapUpdate); ok {
+				for _, s0 := range an.Sources(mu.Key) {
+					if _, sn, f, isF := an.FieldOf(s0); isF && f == "Id" && strings.HasSuffix(sn, "pkg/resource.CollectionChange") {
+						keyed = true
+					}
+				}
+			}
+		})
+		if !keyed {
+			continue
+		}
+		for _, pc := range an.CallsIn(fn, func(s string) bool { return strings.HasSuffix(s, "pkg/resource.Collection).Pull") }) {
+			starves := false
+			var walk func(v ssa.Value, depth int)
+			walk = func(v ssa.Value, depth int) {
+				if depth > 4 {
+					return
+				}
+				for _, s0 := range an.Sources(v) {
+					switch x := s0.(type) {
+					case *ssa.Call:
+						if an.CalleeName(x) == an.ModulePath+"/pkg/resource.WithUpdatesOnly" {
+							if b, isC := an.ConstBool(x.Call.Args[0]); !isC || b {
+								starves = true
+							}
+						}
+					case *ssa.Slice:
+						// the variadic slice: its elements
+						an.Instrs(fn, func(in ssa.Instruction) {
+							if st, ok := in.(*ssa.Store); ok {
+								if ia, isIA := st.Addr.(*ssa.IndexAddr); isIA && ia.X == x.X {
+									walk(st.Val, depth+1)
+								}
+							}
+						})
+					case *ssa.MakeInterface:
+						walk(x.X, depth+1)
+					}
+				}
+			}
+			a := pc.Common().Args
+			walk(a[len(a)-1], 0)
+			top := fn
+			for top.Parent() != nil {
+				top = top.Parent()
+			}
+			c.SawFunc(an.FuncName(top))
+			c.Check(!starves, rule, an.FuncName(top)+"|the items the message is rebuilt from are subscribed to with their current values", pc.Pos(), "",
+				"the collection is subscribed to with the caller's updates_only option: without seed events the map the aggregate is rebuilt from stays empty, so every change sent on an updates-only stream carries only the items written since the stream opened instead of the full message Get and the Update response report")
+		}
+	}
 }
 
 func valueOf(in ssa.Instruction) ssa.Value {
